@@ -97,7 +97,9 @@ func batch(res *evid.Result, bi int, root string) {
 	// below 0.99 against the others' signatures)
 	for k, lits := range [][3]string{{"alpha-marker-0001", "1000", "x"}, {"a much longer second literal with other characters: ÄÖÜ €", "70000", "yyyyyyyyyyyyyyyyyyyyyy"}, {"z", "123456789", "http://203.0.113.9/stage2.bin?id="},
 		// string data of very low entropy, followed (in ID order) by one of entropy exactly zero
-		{"----------------+", "4242", "-----"}, {"aaaaaaaa", "5151", "aaaa"}} {
+		{"----------------+", "4242", "-----"}, {"aaaaaaaa", "5151", "aaaa"},
+		// literals that are equal up to letter case (an HTTP verb and its lower-case form)
+		{"GET /index", "6161", "get /index"}} {
 		name := fmt.Sprintf("Sib%d", k)
 		base.Funcs = append(base.Funcs, gen.Func{Name: name, Sig: gen.SigII, Exec: true, Tags: []string{"sibling-shape"}, Text: fmt.Sprintf(`func %s(a int, b int) (res int) {
 	res = len(hs1(%q)) + a*%s
